@@ -583,14 +583,11 @@ func (fr *Frame) binop(op token.Token, x, y Term, xt types.Type, ins ssa.Instruc
 			return not(r)
 		}
 		return r
-	case token.LSS:
-		return fmt.Sprintf("(< %s %s)", x, y)
-	case token.LEQ:
-		return fmt.Sprintf("(<= %s %s)", x, y)
-	case token.GTR:
-		return fmt.Sprintf("(> %s %s)", x, y)
-	case token.GEQ:
-		return fmt.Sprintf("(>= %s %s)", x, y)
+	case token.LSS, token.LEQ, token.GTR, token.GEQ:
+		if isString(xt) {
+			x, y = fr.eng.vc.strRank(x), fr.eng.vc.strRank(y)
+		}
+		return fmt.Sprintf("(%s %s %s)", op.String(), x, y)
 	case token.ADD:
 		if isString(xt) {
 			return fmt.Sprintf("(str_cat %s %s)", x, y)
